@@ -6,6 +6,7 @@ import Driver.OpsAcct
 import Driver.OpsProf
 import Driver.OpsEV
 import Driver.OpsGraph
+import Driver.OpsLP
 
 namespace Driver
 
@@ -13,6 +14,7 @@ structure DState where
   bat : Option BatCtx := none
   acct : List Relsad.BusAcc := []
   ev : Option EVCtx := none
+  lp : Option (Relsad.LP.Island × Relsad.LP.LP) := none
 
 def step (st : DState) (line : String) : DState × String :=
   match line.splitOn " " with
@@ -20,6 +22,10 @@ def step (st : DState) (line : String) : DState × String :=
   | "ev" :: args =>
       match opsEV st.ev args with
       | some (b, out) => ({ st with ev := b }, out)
+      | none => (st, "bad-op")
+  | "lp" :: args =>
+      match opsLP st.lp args with
+      | some (b, out) => ({ st with lp := b }, out)
       | none => (st, "bad-op")
   | "graph" :: args => (st, (opsGraph args).getD "bad-op")
   | "prof" :: args => (st, (opsProf args).getD "bad-op")
